@@ -166,4 +166,13 @@ var plans = map[string]*Plan{
 		Real:        sysReal, Stub: sysStub, Assumptions: commonAssumptions,
 		ExpectProbes: []string{"compressed"},
 	},
+	"C12": {
+		Level:     "exploration",
+		Race:      true,
+		Scenarios: []ScenPlan{{"sysrace", 1600, 24000}},
+		QuickWallS: 200, ThoroughWallS: 1700,
+		Rule:        "Scenario sysrace (binary built with -race, network in free-delivery mode, GOMAXPROCS=4 per worker): 8-24 (thorough 8-64) goroutines running a drawn mix of client traffic with 5xx/reset/short-body faults, admin add/remove/strategy/list, /metrics, /health, /v1/backends readers, passive+active health transitions, breaker, limiter, plugins, then shutdownGracefully; every strategy and feature combination is drawn. The workload is seed-determined; the schedule is the Go scheduler's. Violations: race-detector reports with Helios frames (fingerprint = the two sites), panics, goroutines stuck on Helios locks. Deadlock / atomicity detection under a controlled schedule is contributed by the micro-sim checks (C03/C07/C08/C19).",
+		Real:        sysReal, Stub: append(append([]string{}, sysStub...), "goroutine scheduling: NOT simulated in this check (Go runtime under the race detector)"), Assumptions: append(append([]string{}, commonAssumptions...), "race detector (happens-before) decides; reproduction of a report from its seed is attempted up to 6 times because the schedule is not seed-decided"),
+		ExpectProbes: []string{"race-run-completed"},
+	},
 }
